@@ -285,6 +285,14 @@ def generate(tier, rng):
         b.add(query(qid=qid | 0x41, questions=(((b"abcdefgh", b"ijklmnop"), 1, 1),)))
     yield from b.scripts()
     # I. other configurations
+    for cfg in (Cfg(key=KEY, level=3), Cfg(key=KEY, logger="logfmt", level=4), Cfg(key=KEY, level=1)):
+        b = Batch("log-levels", cfg)
+        for qs in ((((), 1, 1),), (((b"www", b"example", b"com"), 1, 1), ((), 1, 1)), (((b"\xff" * 63,), 1, 1),), (), (((b"\0",), 1, 1),),
+                   (((b"a",), 28, 1),)):
+            b.add(query(qid=0x7100, questions=qs))
+        b.add(query(flags=0x8180))
+        b.add(query()[:20])
+        yield from b.scripts()
     for cfg in (Cfg(self_ips=[gens.SELF4, gens.SELF6], key=KEY), Cfg(key=KEY, logger="console", level=4)):
         b = Batch("configs", cfg)
         for k in (0, 1, 3):
